@@ -43,6 +43,7 @@ const (
 	tLock
 	tRLock
 	tTryLock
+	tLockDrain
 )
 
 // Ticket is a park point of an actor.
@@ -507,16 +508,18 @@ func (k *Kernel) ticketEnabled(t *Ticket) bool {
 		if t.mu != nil {
 			return t.mu.holder == ""
 		}
-		return t.rw.writer == "" && t.rw.readers == 0
+		return t.rw.wHeld == ""
+	case tLockDrain:
+		return t.rw.readers == 0
 	case tRLock:
-		return t.rw.writer == ""
+		return t.rw.wHeld == ""
 	}
 	return true
 }
 
 func (k *Kernel) ticketKey(a *Actor, t *Ticket) string {
 	switch t.kind {
-	case tLock:
+	case tLock, tLockDrain:
 		return "lock " + a.Name
 	case tRLock:
 		return "rlock " + a.Name
@@ -587,9 +590,15 @@ func (k *Kernel) resume(a *Actor, opt int) {
 			t.mu.holder = a.Name
 			k.held[t.mu] = a.Name
 		} else {
-			t.rw.writer = a.Name
-			k.held[t.rw] = a.Name
+			t.rw.wHeld = a.Name
+			if t.rw.readers == 0 {
+				t.rw.writer = a.Name
+				k.held[t.rw] = a.Name
+			}
 		}
+	case tLockDrain:
+		t.rw.writer = a.Name
+		k.held[t.rw] = a.Name
 	case tRLock:
 		t.rw.readers++
 		k.held[t.rw] = "readers"
